@@ -1006,3 +1006,78 @@ func ruleReplayClosesPerFile(r *Report) {
 		r.Bad(rule, key, create.Pos(), "the readers of all WAL files are kept open until Replay returns (collected in a slice, closed in a deferred loop): a log with more files than the descriptor limit cannot be replayed and every later Open fails with \"too many open files\" (MemstoreSizeBytes(1), one Put and 4496 Deletes leave 1499 WAL files; RLIMIT_NOFILE 1024)")
 	}
 }
+
+// R-no-acquire-after-close: Close releases the scanners a table reader handed out by walking the list they were
+// registered in. A Scan after Close registers (and opens) a new one that nothing will ever close: the reader must
+// remember that it was closed and refuse.
+func ruleNoAcquireAfterClose(r *Report) {
+	const rule = "no-acquire-after-close"
+	r.Rule(rule, 1, "every method of sstables.SSTableReader that registers a new handle in miscClosers first tests a flag that Close sets, and fails when it is set")
+	p := r.P
+	cl := r.NeedFunc(rule, "sstables.SSTableReader.Close")
+	if cl == nil {
+		return
+	}
+	// flags Close sets to true
+	flags := map[string]bool{}
+	eachInstr(cl, func(s Site) {
+		if st, ok := s.Instr.(*ssa.Store); ok {
+			if c, isC := constBool(st.Val); isC && c {
+				if t, f, _, isF := fieldAddrName(st.Addr); isF && t == "sstables.SSTableReader" {
+					flags[f] = true
+				}
+			}
+		}
+	})
+	n := 0
+	for _, fn := range p.FuncsOfPkg("sstables") {
+		if fn.Signature.Recv() == nil || fn.Name() == "Close" || typeShort(fn.Signature.Recv().Type()) != "*sstables.SSTableReader" && typeShort(fn.Signature.Recv().Type()) != "sstables.SSTableReader" {
+			continue
+		}
+		var regs []Site
+		eachInstr(fn, func(s Site) {
+			if st, ok := s.Instr.(*ssa.Store); ok {
+				if _, f, _, isF := fieldAddrName(st.Addr); isF && f == "miscClosers" {
+					regs = append(regs, s)
+				}
+			}
+		})
+		if len(regs) == 0 {
+			continue
+		}
+		n++
+		key := rule + "/" + FuncKey(fn)
+		r.Saw(fn)
+		// edges on which a Close-flag is known to be false; with only the "closed" sides left no registration may be reachable
+		removed := map[Edge]bool{}
+		tested := false
+		for _, b := range liveBlocks(fn) {
+			cnd, tS, fS, tE, fE, ok := effCond(b)
+			if !ok {
+				continue
+			}
+			if _, f, _, isF := loadOfField(cnd); isF && flags[f] {
+				tested = true
+				_ = tS
+				_ = tE
+				if fE {
+					removed[Edge{b, fS}] = true
+				}
+			}
+		}
+		bad := !tested
+		for _, s := range regs {
+			if tested && siteReachable(s, removed) {
+				bad = true
+			}
+		}
+		if bad {
+			r.Bad(rule, key, regs[0].Pos(), "a new scanner is opened and registered without asking whether the reader was closed: create, Scan, Close, Scan returns nil, opens data.rio again and leaves the descriptor with a reader whose Close already ran (through a stacked reader: one per table)")
+		} else {
+			r.OK(rule, key, regs[0].Pos(), "refuses after Close")
+		}
+	}
+	if n == 0 {
+		r.OK(rule, rule+"/none", cl.Pos(), "no method registers handles after construction")
+	}
+}
